@@ -736,6 +736,22 @@ def repo_lock(exclusive=False):
         return None
     import fcntl
     os.makedirs(BUILD, exist_ok=True)
+    # give way to waiting writers (tools/with_mutation leaves a marker per waiting process)
+    wdir = os.path.join(BUILD, ".writers")
+    for _ in range(3600):
+        waiting = []
+        if os.path.isdir(wdir):
+            for m in os.listdir(wdir):
+                if os.path.exists("/proc/%s" % m):
+                    waiting.append(m)
+                else:
+                    try:
+                        os.remove(os.path.join(wdir, m))
+                    except OSError:
+                        pass
+        if not waiting or exclusive:
+            break
+        time.sleep(1)
     f = open(os.path.join(BUILD, ".repo.lock"), "w")
     fcntl.flock(f, fcntl.LOCK_EX if exclusive else fcntl.LOCK_SH)
     return f
